@@ -101,12 +101,12 @@ class Session(object):
         if self.transport in ('fd', 'socket'):
             self.b.setblocking(True); self.b.sendall(data); self.b.setblocking(False)
         else:
-            q0 = self.p._read_queue.qsize() if self.transport == 'popen' else None
+            q0 = common.qlen(self.p) if self.transport == 'popen' else None
             os.write(self.cw, b'W' + len(data).to_bytes(4, 'big') + data)
             assert os.read(self.ar, 1) == b'k'
             if self.transport == 'popen':
                 for _ in range(4000):
-                    if self.p._read_queue.qsize() > q0:
+                    if common.qlen(self.p) > q0:
                         break
                     time.sleep(0.0005)
                 time.sleep(0.002)
